@@ -47,7 +47,7 @@ def parse_synced(s):
     for e in s.split("+"):
         c, v = e.split(":")
         t, i, ts = v.split(".")
-        m[c] = (int(t), int(i), int(ts))
+        m[c] = (int(t), int(i), -1 if ts == "*" else int(ts))   # "*": wall clock of an ApplyRemoteSnapshot call
     return m
 
 
@@ -61,7 +61,7 @@ def oracle_case(cid, c, out):
     Returns (list of failure strings, stats)."""
     fails = []
     kind, eng, cls, ops = c[0], c[1], c[2], c[3].split()
-    st = dict(ops=len(ops), dup=0, restart=0, snap=0, lose=0, err=0, local=0, commit=0, rpc=0)
+    st = dict(ops=len(ops), dup=0, restart=0, snap=0, lose=0, err=0, local=0, commit=0, rpc=0, snapop=0)
     if out is None:
         return ["no implementation output"], st
     if cls == "raw":
@@ -75,6 +75,8 @@ def oracle_case(cid, c, out):
     k = 0
     for op in ops:
         f = op.split(":")
+        if f[0] == "W":
+            continue
         if f[0] == "Q":
             cl = int(f[1])
             ents = [tuple(int(x) for x in e.split(".")) for e in f[2].split(",")] if len(f) > 2 and f[2] else []
@@ -84,7 +86,7 @@ def oracle_case(cid, c, out):
             src[cl] = parse_dump(obs[k][4:])
         else:
             r = obs[k].split(";")
-            if len(r) != 3:
+            if len(r) != 4:
                 return ["bad observation %r at op %d" % (obs[k], k)], st
             per_op.append((op, r[0], parse_synced(r[1]), int(r[2])))
         k += 1
@@ -130,7 +132,9 @@ def oracle_case(cid, c, out):
                 fails.append("synced position of %s moved backwards at %s: %s -> %s" % (cl, op, v, s[cl]))
         if jl < prev_len:
             fails.append("applied data shrank at %s: %d -> %d" % (op, prev_len, jl))
-        if f[0] in ("D", "X", "S", "R") and (s != prev_s or jl != prev_len):
+        if f[0] in ("T", "P", "K"):
+            st["snapop"] = st.get("snapop", 0) + 1
+        if f[0] in ("D", "X", "S", "R", "T", "P", "K") and (s != prev_s or jl != prev_len):
             fails.append("%s changed the replica state: synced %s -> %s, journal %d -> %d" % (op, prev_s, s, prev_len, jl))
         changed = [cl for cl in s if s[cl] != prev_s.get(cl)]
         if changed and jl - prev_len < len(changed):
@@ -160,7 +164,10 @@ def oracle_case(cid, c, out):
         name = "c%d" % cl
         if pj:
             last = [e for e in ents if e[3] == pj[-1]]
-            if last and prev_s.get(name) != (last[0][0], last[0][1], last[0][2]):
+            got = prev_s.get(name)
+            if last and got is not None and got[2] == -1:
+                got = (got[0], got[1], last[0][2])      # position recorded by a snapshot install: term and index only
+            if last and got != (last[0][0], last[0][1], last[0][2]):
                 fails.append("synced position of %s is %s but the last applied entry is %s" % (name, prev_s.get(name), last[0][:3]))
         elif name in prev_s:
             fails.append("synced position recorded for %s although nothing of it was applied" % name)
@@ -187,7 +194,7 @@ def oracle_case(cid, c, out):
                         kk = j_ + 1
             if kk != len(ents):
                 fails.append("the sender never delivered the tail of c%d (%d of %d)" % (cl, kk, len(ents)))
-        if cls in ("ord", "e2e"):
+        if cls in ("ord", "e2e", "snap"):
             sj, sn, sa = src[cl]
             if pj != [p for t, p in sj if t == cl] or n.get(cl, 0) != sn.get(cl, 0) or a.get(cl, "") != sa.get(cl, ""):
                 fails.append("data replayed from c%d differs from the source's data: %s / %s / %r  vs source %s / %s / %r"
@@ -211,7 +218,7 @@ def oracle_m0(cases, impl):
         prev = None
         for op, o in zip(ops, obs):
             r = o.split(";")
-            if len(r) != 3:
+            if len(r) != 4:
                 break
             cur = (r[1], r[2])
             if op.startswith("R:") and prev is not None and cur != prev:
@@ -304,7 +311,7 @@ def run(ctx):
                             f.write(line if line.endswith("\n") else line + "\n")
             runs.append(dict(sub="corpus", replay=cf))
         if quick:
-            runs.append(dict(sub="fresh", n=400, nb=8, ne=4, engines="mem"))
+            runs.append(dict(sub="fresh", n=400, nb=8, ne=8, engines="mem"))
         else:
             runs.append(dict(sub="fresh", n=5000, nb=150, ne=60, engines="mem,pebble,rocksdb"))
             runs.append(dict(sub="fresh-pebble-live", n=0, nb=40, ne=20, engines="pebble"))
